@@ -12,6 +12,12 @@ Four streams (all randomness from ctx.rng):
             run on a hand-made lmfit model, and of AeRes.make_model's injection conventions (`inject`) against the
             real function; the two WCSHelper ellipse conversions are oracles whose ARGUMENTS and results are
             recorded, so that argument order / offsets / scalings are compared, not just end results;
+  options   (part of loop) mixed option sets on images sitting on a non-zero pedestal: noise-free with rms forced and the
+            background estimated internally (exact tolerances), and 12 fixed noisy cases over all four forced/estimated
+            combinations judged by the property's own criterion (ra, dec, peak within 5 reported sigma, one component);
+            these run in a forked child that is killed after CASE_TIMEOUT seconds (a tree that leaves the pedestal in
+            sends MINPACK into a fit of the whole image);
+  witnesses deterministic: err_a/err_b (open finding) and err_ra/err_dec (sky angles, checked at |dec| = 84);
   loop      the closed loop itself, kind 'spec': an image rendered INDEPENDENTLY of Aegean's conventions
             (pixel centres -> sky with astropy.wcs in 1-based FITS coordinates; offsets on the sphere with the
             vector formulas below; the Gaussian evaluated in the local tangent plane with PA East of North),
@@ -49,7 +55,10 @@ ASSUMPTIONS = [
     "theorems are over the reals; IEEE double rounding and float32/float64 FITS storage are not modelled",
     "ln 2 is a positive parameter of the regenerated constants (R has no logarithm); fwhm_is_full_width_at_half_max "
     "instantiates it with Real.log 2, the driver with the double nearest to log 2",
-    "noisy clause (within 5 reported standard errors) is statistics: sampled in the thorough tier only, exploration strength",
+    "noisy clause (within 5 reported standard errors): JUDGED for ra, dec, peak and the component count on 12 fixed noisy cases "
+    "(white noise, docov off, S/N 50, |dec| 80-86 in ZEA/ARC/STG, all four forced/estimated rms-bkg option sets, on a pedestal; "
+    "fixed geometry and noise seeds: the clean tree's worst |z| is 2.8); a, b (open finding C01-err-a-b-not-fwhm), pa and int are "
+    "exploration-only (thorough tier, reported as statistics)",
     "'exactly one island' is left to the closed loop (C02 owns the island model)",
 ]
 TRUSTED = [
